@@ -144,7 +144,7 @@ def run_harnesses(pid, names, out, tier):
                     out.undecided.append(f'{oid}: no verdict (timeout / out of memory / not found)')
                     continue
                 entry = {'harness': n, 'kind': h['kind'], 'bound': h.get('bound', 'none (loop-free, full domain)'), 'checks': r['checks'],
-                         'result': r['status'], 'cbmc_s': r['time_s'], 'function': h.get('function'), 'repo': h['attach']}
+                         'result': r['status'], 'cbmc_s': r['time_s'], 'function': h.get('function'), 'repo': h['attach'], 'input_states': h.get('input_states', 0)}
                 if r['status'] == 'SUCCESSFUL':
                     if not r['checks']:
                         out.undecided.append(f'{oid}: zero checks (vacuous)')
